@@ -362,7 +362,8 @@ bool AutomationMgr::handleMidi(int channel, int type, int val)
 
         if(bound_nrpn)
             return 1;
-        }
+        } else //incomplete NRPN sequence: nothing to drive or learn yet
+            return 0;
         
     }
     else {
